@@ -60,8 +60,6 @@ var nilTable = map[string]tabEntry{
 		"the loop runs depth 0..maxDepth; walkPlanStep records depth d+1 only below a step of depth d, so every depth up to the maximum key has an executor (depth 0 is tested explicitly since the fix for the empty plan)"},
 	"pebbles.(*Gateway).newSubscriptionEntry/map lookup map[string]queryer.Queryer[…] without comma-ok": {1,
 		"getQueryers inserts an entry for the URL of every step it is given, and rootStep is one of those steps"},
-	"introspection.parseTypeRef/pointer field introspection.IntrospectionTypeRef.OfType of a JSON-decoded struct": {3,
-		"introspectRemoteSchema converts a type only after checkTypeRefs accepted it, and a directive's arguments only after the same test: every reference handed to parseTypeRef can be followed down to a named type (IntrospectionTypeRef.complete), so the wrappers it steps through carry ofType. Until the repair eb5f9b2 this line claimed that a spec-compliant answer always carries ofType; it does not for a type wrapped deeper than the query's TypeRef fragment selects (audit)"},
 }
 
 // errTable: deliberate drops / fallbacks, confirmed by reading.
